@@ -1,6 +1,6 @@
 (* C01-M2: a core of the language (literals, variables, unary/binary/logical
    operators, conditionals, simple / compound / logical assignment, let/const,
-   blocks, if, while), its source semantics, the compilation scheme of
+   blocks, if, while, break, continue), its source semantics, the compilation scheme of
    src/compiler/compile_expr.rs + compile_stmt.rs for exactly these constructs
    (registers handed out by the stack discipline of RegisterAllocator::alloc /
    free, absolute jump targets as BytecodeBuilder::patch_jump computes them,
@@ -48,6 +48,7 @@ Section Core.
   | SBlock (body : list stmt)
   | SIf (c : expr) (t : stmt) (e : option stmt)
   | SWhile (c : expr) (body : stmt)
+  | SBreak | SContinue                                 (* unlabeled, of the innermost while *)
   | SEmpty.
 
   (* ------------------------------------------------------------------ *)
@@ -151,8 +152,9 @@ Section Core.
         end
     end.
 
-  (* statements: None = out of fuel. The outcome is the environment or the error. *)
-  Inductive sres := SNormal (en : env) | SThrown (e : err).
+  (* statements: None = out of fuel. A statement completes normally, with break /
+     continue (carrying the environment at that point), or with an error. *)
+  Inductive sres := SNormal (en : env) | SBroke (en : env) | SContinued (en : env) | SThrown (e : err).
 
   Fixpoint exec (fuel : nat) (s : stmt) (en : env) {struct fuel} : option sres :=
     match fuel with
@@ -160,6 +162,8 @@ Section Core.
     | S f =>
         match s with
         | SEmpty => Some (SNormal en)
+        | SBreak => Some (SBroke en)
+        | SContinue => Some (SContinued en)
         | SExpr e => match eval e en with (Val _, en1) => Some (SNormal en1) | (Thrown er, _) => Some (SThrown er) end
         | SDecl m x e => match eval e en with
                          | (Val v, en1) => Some (SNormal (declare x v m en1))
@@ -171,6 +175,8 @@ Section Core.
                | [] => Some (SNormal (pop en0))
                | s1 :: r => match exec f s1 en0 with
                             | Some (SNormal en1) => go r en1
+                            | Some (SBroke en1) => Some (SBroke (pop en1))          (* leaving the block *)
+                            | Some (SContinued en1) => Some (SContinued (pop en1))
                             | other => other
                             end
                end) body (push en)
@@ -184,7 +190,8 @@ Section Core.
             match eval c en with
             | (Val vc, en1) => if truthy vc then
                                  match exec f body en1 with
-                                 | Some (SNormal en2) => exec f (SWhile c body) en2
+                                 | Some (SNormal en2) | Some (SContinued en2) => exec f (SWhile c body) en2
+                                 | Some (SBroke en2) => Some (SNormal en2)
                                  | other => other
                                  end
                                else Some (SNormal en1)
@@ -193,6 +200,8 @@ Section Core.
         end
     end.
 
+  (* top level: break / continue outside a loop are refused by the compiler; the
+     semantics treats them as the end of the statement list *)
   Fixpoint exec_list (fuel : nat) (l : list stmt) (en : env) : option sres :=
     match l with
     | [] => Some (SNormal en)
@@ -208,6 +217,7 @@ Section Core.
     match exec_list fuel body [[]] with
     | None => None
     | Some (SThrown er) => Some (OError er)
+    | Some (SBroke _) | Some (SContinued _) => None
     | Some (SNormal en) => match eval final en with
                            | (Val v, en1) => Some (OValue v en1)
                            | (Thrown er, _) => Some (OError er)
@@ -225,6 +235,7 @@ Section Core.
   | OGetVar (d : nat) (x : string) | OTryGetVar (d : nat) (x : string)
   | OSetVar (x : string) (s : nat) | ODeclare (x : string) (s : nat) (mutable : bool)
   | OPushScope | OPopScope
+  | OBreak (t scopes : nat) | OContinue (t scopes : nat)   (* try_depth is 0: no try statement in the core *)
   | OJump (t : nat) | OJumpIfTrue (c t : nat) | OJumpIfFalse (c t : nat) | OJumpIfNotNullish (c t : nat)
   | OHalt.
 
@@ -289,10 +300,48 @@ Section Core.
         end
     end.
 
+  (* the number of instructions an expression / a statement compiles to: jump
+     targets beyond the construct being compiled (the end of a loop, for break)
+     are computed from it, as patch_jump does after the fact *)
+  Fixpoint esize (e : expr) : nat :=
+    match e with
+    | ELit _ | EVar _ => 1
+    | EBin _ a b => esize a + esize b + 1
+    | EUn _ a | ETypeof a => esize a + 1
+    | ETypeofVar _ => 2
+    | ELog _ a b => esize a + 1 + esize b
+    | ECond c a b => esize c + 1 + esize a + 1 + esize b
+    | EAssign _ a => esize a + 1
+    | ECompound _ _ a => 1 + esize a + 2
+    | ELogAssign _ _ a => 2 + esize a + 1
+    end.
+  Fixpoint ssize (s : stmt) : nat :=
+    match s with
+    | SEmpty => 0
+    | SBreak | SContinue => 1
+    | SExpr e => esize e
+    | SDecl _ _ e => esize e + 1
+    | SBlock body => 1 + (fix go (l : list stmt) : nat := match l with [] => 0 | s1 :: r => ssize s1 + go r end) body + 1
+    | SIf c t None => esize c + 1 + ssize t
+    | SIf c t (Some e) => esize c + 1 + ssize t + 1 + ssize e
+    | SWhile c body => esize c + 1 + ssize body + 1
+    end.
+
+  (* the innermost loop: where continue and break go, and how many block scopes
+     have been opened since the loop statement (LoopContext + Compiler.scope_depth) *)
+  Record loopctx := { lc_continue : nat; lc_break : nat; lc_scopes : nat }.
+  Definition deeper (lc : option loopctx) : option loopctx :=
+    match lc with
+    | Some c => Some {| lc_continue := lc_continue c; lc_break := lc_break c; lc_scopes := S (lc_scopes c) |}
+    | None => None
+    end.
+
   (* compile_statement_impl; statements hold no register across each other *)
-  Fixpoint cstmt (s : stmt) (next pc : nat) {struct s} : option (list op) :=
+  Fixpoint cstmt (s : stmt) (lc : option loopctx) (next pc : nat) {struct s} : option (list op) :=
     match s with
     | SEmpty => Some []
+    | SBreak => match lc with Some c => Some [OBreak (lc_break c) (lc_scopes c)] | None => None end
+    | SContinue => match lc with Some c => Some [OContinue (lc_continue c) (lc_scopes c)] | None => None end
     | SExpr e => match alloc next with None => None | Some d => cexpr e d (S next) pc end
     | SDecl m x e =>
         match alloc next with None => None | Some d =>
@@ -301,7 +350,7 @@ Section Core.
         match (fix go (l : list stmt) (pc0 : nat) : option (list op) :=
                  match l with
                  | [] => Some []
-                 | s1 :: r => match cstmt s1 next pc0 with None => None | Some c1 =>
+                 | s1 :: r => match cstmt s1 (deeper lc) next pc0 with None => None | Some c1 =>
                               match go r (pc0 + length c1) with None => None | Some cr => Some (c1 ++ cr) end end
                  end) body (pc + 1) with
         | None => None
@@ -310,11 +359,11 @@ Section Core.
     | SIf c t e =>
         match alloc next with None => None | Some tr =>
         match cexpr c tr (S next) pc with None => None | Some cc =>
-        match cstmt t next (pc + length cc + 1) with None => None | Some ct =>
+        match cstmt t lc next (pc + length cc + 1) with None => None | Some ct =>
         match e with
         | None => Some (cc ++ [OJumpIfFalse tr (pc + length cc + 1 + length ct)] ++ ct)
         | Some s2 =>
-            match cstmt s2 next (pc + length cc + 1 + length ct + 1) with None => None | Some ce =>
+            match cstmt s2 lc next (pc + length cc + 1 + length ct + 1) with None => None | Some ce =>
             Some (cc ++ [OJumpIfFalse tr (pc + length cc + 1 + length ct + 1)] ++ ct
                      ++ [OJump (pc + length cc + 1 + length ct + 1 + length ce)] ++ ce)
             end
@@ -322,15 +371,17 @@ Section Core.
     | SWhile c body =>
         match alloc next with None => None | Some tr =>
         match cexpr c tr (S next) pc with None => None | Some cc =>
-        match cstmt body next (pc + length cc + 1) with None => None | Some cb =>
-        Some (cc ++ [OJumpIfFalse tr (pc + length cc + 1 + length cb + 1)] ++ cb ++ [OJump pc])
+        let finish := pc + length cc + 1 + ssize body + 1 in
+        match cstmt body (Some {| lc_continue := pc; lc_break := finish; lc_scopes := 0 |}) next (pc + length cc + 1) with
+        | None => None
+        | Some cb => Some (cc ++ [OJumpIfFalse tr finish] ++ cb ++ [OJump pc])
         end end end
     end.
 
   Fixpoint cstmts (l : list stmt) (next pc : nat) : option (list op) :=
     match l with
     | [] => Some []
-    | s1 :: r => match cstmt s1 next pc with None => None | Some c1 =>
+    | s1 :: r => match cstmt s1 None next pc with None => None | Some c1 =>
                  match cstmts r next (pc + length c1) with None => None | Some cr => Some (c1 ++ cr) end end
     end.
 
@@ -373,6 +424,7 @@ Section Core.
         | ODeclare x s m => next rs (declare x (rs s) m en)
         | OPushScope => next rs (push en)
         | OPopScope => next rs (pop en)
+        | OBreak t k | OContinue t k => VNext {| pc_of := t; regs_of := rs; env_of := Nat.iter k pop en |}
         | OJump t => goto t
         | OJumpIfTrue c t => if truthy (rs c) then goto t else next rs en
         | OJumpIfFalse c t => if truthy (rs c) then next rs en else goto t
